@@ -50,7 +50,7 @@ def cases(ctx):
     out = list(REGRESS) + scan_streams.soups(ctx, ctx.pick(2000, 50000), "c03soup") + all_cuts(ctx)
     rnd = ctx.rng("deep")
     for lang in sr.LANGS:
-        d = ctx.pick(150, 1200)
+        d = ctx.pick(400, 1200)     # functions nested deeper than any interpreter recursion budget a per-level recursion could afford
         if lang == "Python":
             out.append((lang, "".join("%sdef f%d():\n" % (" " * i, i) for i in range(d)) + " " * d + "pass\n"))
         else:
@@ -82,6 +82,13 @@ def cli_runs(ctx):
         for j, lang in enumerate(sr.LANGS):   # not valid UTF-8
             rel = os.path.join("src", "bin%d.%s" % (j, sr.EXT[lang]))
             write_bytes(os.path.join(root, rel), b"int f() {\n  return 1; // caf\xe9 \xff\xfe\n}\n" if lang != "Python" else b"def f():\n    return 1  # caf\xe9 \xff\n")
+            files.append(rel)
+        # encoding declarations (PEP 263 / editor modelines): known, unknown, half-typed, contradicting the bytes
+        for j, decl in enumerate([b"# -*- coding: latin-1 -*-", b"# -*- coding: utf-8-unix -*-", b"# coding: rot13", b"# -*- coding: utf-16 -*-",
+                                  b"# vim: set fileencoding=cp1252 :", b"# -*- coding: ut", b"#!/usr/bin/python\n# -*- coding: future_fstrings -*-",
+                                  b"# -*- coding: ascii -*-"]):
+            rel = os.path.join("src", "enc%d.py" % j)
+            write_bytes(os.path.join(root, rel), decl + (b"\ndef f(a):\n    return 'caf\xc3\xa9'\n" if j != 5 else b""))
             files.append(rel)
         write_bytes(os.path.join(root, "src", "empty.py"), b"")
         files.append(os.path.join("src", "empty.py"))
